@@ -608,30 +608,46 @@ static void bn_print_hex(const bn_t t) {
 	for (i = (int)t->used - 1; i >= 0; i--) printf(i == (int)t->used - 1 ? "%llx" : "%0*llx",
 		i == (int)t->used - 1 ? (unsigned long long)t->dp[i] : (int)(2 * sizeof(dig_t)), (unsigned long long)t->dp[i]);
 }
+static void list_line(int id) {
+	int i, k;
+	bn_t t;
+	ctx_t *ctx = core_get();
+	printf("%d ", id);
+	for (i = FD - 1; i >= 0; i--) printf("%0*llx", (int)(2 * sizeof(dig_t)), (unsigned long long)ctx->prime.dp[i]);
+	printf(" %d %d", fp_prime_get_qnr(), fp_prime_get_cnr());
+	read_tower();
+	/* the next-level non-residues as VALUES (input selection only: which towers are fields) */
+	bn_null(t); bn_new(t);
+	for (k = 0; k < 5; k++) {
+		fp_prime_back(t, k < 2 ? g_xi[k] : g_x3[k - 2]);
+		printf(" "); bn_print_hex(t);
+	}
+	bn_free(t);
+	printf("\n");
+}
+
 static int list_params(void) {
-	int id, i, err;
+	int id, err;
 	ctx_t *ctx = core_get();
 	for (id = 1; id < 120; id++) {
 		ctx->prime.dp[0] = 0;
 		VH_TRY(err, fp_param_set(id));
 		vh_code();
-		if (err == 0 && (ctx->prime.dp[0] & 1) && ctx->prime.used == RLC_FP_DIGS) {
-			printf("%d ", id);
-			for (i = FD - 1; i >= 0; i--) printf("%0*llx", (int)(2 * sizeof(dig_t)), (unsigned long long)ctx->prime.dp[i]);
-			printf(" %d %d", fp_prime_get_qnr(), fp_prime_get_cnr());
-			read_tower();
-			{
-				/* the next-level non-residues as VALUES (input selection only: which towers are fields) */
-				bn_t t; int k;
-				bn_null(t); bn_new(t);
-				for (k = 0; k < 5; k++) {
-					fp_prime_back(t, k < 2 ? g_xi[k] : g_x3[k - 2]);
-					printf(" "); bn_print_hex(t);
-				}
-				bn_free(t);
-			}
-			printf("\n");
-		}
+		if (err == 0 && (ctx->prime.dp[0] & 1) && ctx->prime.used == RLC_FP_DIGS) list_line(id);
+	}
+	return 0;
+}
+
+/* --dense <hex> ... : the same line for primes installed with fp_prime_set_dense (tiny worlds) */
+static int list_dense(int argc, char **argv) {
+	int i, err;
+	bn_t p;
+	bn_null(p); bn_new(p);
+	for (i = 2; i < argc; i++) {
+		vh_bn_set(p, argv[i]);
+		VH_TRY(err, fp_prime_set_dense(p));
+		vh_code();
+		if (err == 0) list_line(0);
 	}
 	return 0;
 }
@@ -642,6 +658,10 @@ int main(int argc, char **argv) {
 	if (argc > 1 && strcmp(argv[1], "--list") == 0) {
 		if (core_init() != RLC_OK) return 2;
 		return list_params();
+	}
+	if (argc > 2 && strcmp(argv[1], "--dense") == 0) {
+		if (core_init() != RLC_OK) return 2;
+		return list_dense(argc, argv);
 	}
 	if (argc > 1 && strcmp(argv[1], "--ops") == 0) {
 		const op_t *o;
